@@ -369,3 +369,12 @@ def conv_vals(types: list, vals: list, k: int) -> list:
     if k <= 0:
         return []
     return conv_vals(types, vals, k - 1) + [conv_arg(types[k - 1], vals[k - 1])]
+
+
+def eval_typed(e: V, env: V, v: V) -> bool:
+    """typing of evaluation results (RFC 9535 2.4.1-2.4.3): what the static type of an expression promises about the
+    value it evaluates to"""
+    return (implies(logical_typed(e, env), is_nodelist(v) or is_bool(v))
+            and implies(value_typed(e, env), is_operand(v) or (is_nodelist(v) and len(v) <= 1 and all_wf_nodes(seq(v))))
+            and implies(nodes_typed(e, env), is_nodelist(v) and all_wf_nodes(seq(v)))
+            and implies(is_nodelist(v), all_wf_nodes(seq(v))))
